@@ -57,8 +57,11 @@ func (st *State) pickNext(kind string) {
 		st.fail("deadlock: all goroutines are blocked" + st.blockedSummary())
 	}
 	i := 0
-	if st.p.Cfg.SchedFree && len(rs) > 1 {
+	if st.p.Cfg.SchedFree && len(rs) > 1 && st.devLeft != 0 {
 		i = st.choose(len(rs))
+		if i > 0 && st.devLeft > 0 {
+			st.devLeft--
+		}
 	}
 	prev := st.cur
 	st.cur = rs[i]
@@ -209,9 +212,12 @@ func (st *State) maybePreempt(th *Thread) bool {
 	if st.preemptLeft <= 0 {
 		return false
 	}
+	if st.p.Cfg.PreemptNamed && th.label == "" {
+		return false
+	}
 	var others []*Thread
 	for _, t := range st.threads {
-		if t != th && st.runnable(t) {
+		if t != th && st.runnable(t) && !(st.p.Cfg.PreemptNamed && t.label == "" && t.started) {
 			others = append(others, t)
 		}
 	}
@@ -354,10 +360,10 @@ func (st *State) noteAccess(o *Obj, off, n int, write bool) {
 	}
 }
 
+// isWrittenCell consults the set frozen at the start of the round, so that visibility (and with it the sequence
+// of scheduling decisions) is the same every time a prefix is re-executed within the round.
 func (p *Program) isWrittenCell(k string) bool {
-	p.cellMu.RLock()
-	defer p.cellMu.RUnlock()
-	return p.written[k]
+	return p.writtenFrozen[k]
 }
 
 func (p *Program) noteWrittenCell(k string) {
